@@ -9,6 +9,11 @@
 //!       p0 = `--no-plural-variants`, p1 = the CLI default.  Further fields are ignored (they carry the pluralizer's
 //!       answers for the model).
 //!       ->  `r <ok|planerr|applyerr> <hex new line> <n> (<col> <hex content> <hex replace>)*n`   hunks sorted by column
+//!   rewritefile <hex file name> <hex content> <hex search> <hex replace> <opts> <p0|p1>
+//!       as `rewriteline`, for a multi-line file with a chosen name (the extension selects the language heuristics, the
+//!       content feeds the file-context heuristic)  -> `f <status> <hex new content> <n> (<line> <col> <hex content> <hex replace>)*n`
+//!   resolvectx <hex file name> <hex file content> <hex line> <pos> <hex matched> <hex replacement>
+//!       real `AmbiguityResolver::resolve_with_styles` with the full context (path, file content, line, position) -> `s <name>`
 //!   filtercompat <hex text> <all|names>     real `case_constraints::filter_compatible_styles`   -> `c <names|->`
 //!   resolve <hex matched> <hex replacement> real `AmbiguityResolver::resolve_with_styles` with an empty context (no file,
 //!                                           no line: only the replacement-preference / default-fallback chain)  -> `s <name>`
@@ -155,9 +160,85 @@ fn rewriteline(f: &[&str]) -> String {
     out
 }
 
+fn rewritefile(f: &[&str]) -> String {
+    let (Some(name), Some(content), Some(search), Some(replace), Some(opts)) =
+        (unhex_str(f[1]), unhex(f[2]), unhex_str(f[3]), unhex_str(f[4]), parse_opts(f[5]))
+    else {
+        return "bad-req".into();
+    };
+    let plurals = match f[6] {
+        "p0" => false,
+        "p1" => true,
+        _ => return "bad-req".into(),
+    };
+    if name.is_empty() || name.contains('/') || name.starts_with('.') {
+        return "bad-req".into();
+    }
+    let dir = fresh("f");
+    let file = dir.join(&name);
+    fs::write(&file, &content).unwrap();
+    let out = (|| {
+        let mut plan = match plan_for(&dir, &search, &replace, &opts, plurals) {
+            Ok(p) => p,
+            Err(_) => return format!("f planerr {} 0", hex(&content)),
+        };
+        let mut hs: Vec<(u64, u32, String, String)> =
+            plan.matches.iter().map(|h| (h.line, h.byte_offset, h.content.clone(), h.replace.clone())).collect();
+        hs.sort();
+        let aopts = ApplyOptions {
+            create_backups: false,
+            backup_dir: dir.join(".renamify/backups"),
+            commit: false,
+            force: false,
+            skip_symlinks: true,
+            log_file: None,
+        };
+        let status = if plan.matches.is_empty() {
+            "ok"
+        } else {
+            match apply_plan(&mut plan, &aopts) {
+                Ok(()) => "ok",
+                Err(_) => "applyerr",
+            }
+        };
+        let now = fs::read(&file).unwrap_or_default();
+        let mut s = format!("f {} {} {}", status, hex(&now), hs.len());
+        for (l, c, a, b) in hs {
+            s.push_str(&format!(" {} {} {} {}", l, c, hex(a.as_bytes()), hex(b.as_bytes())));
+        }
+        s
+    })();
+    let _ = fs::remove_dir_all(&dir);
+    out
+}
+
 pub fn dispatch(f: &[&str]) -> Option<String> {
     match f.first().copied() {
         Some("rewriteline") if f.len() >= 6 => Some(rewriteline(f)),
+        Some("rewritefile") if f.len() == 7 => Some(rewritefile(f)),
+        Some("resolvectx") if f.len() == 7 => {
+            let (Some(name), Some(content), Some(line), Ok(pos), Some(m), Some(r)) = (
+                unhex_str(f[1]),
+                unhex_str(f[2]),
+                unhex_str(f[3]),
+                f[4].parse::<usize>(),
+                unhex_str(f[5]),
+                unhex_str(f[6]),
+            ) else {
+                return Some("bad-req".into());
+            };
+            let resolver = renamify_core::ambiguity::AmbiguityResolver::new();
+            let ctx = renamify_core::ambiguity::AmbiguityContext {
+                file_path: Some(std::path::PathBuf::from(name)),
+                file_content: Some(content),
+                line_content: Some(line),
+                match_position: Some(pos),
+                project_root: None,
+            };
+            let poss = renamify_core::case_constraints::filter_compatible_styles(&r, &Style::all_styles());
+            let res = resolver.resolve_with_styles(&m, &r, &ctx, Some(&poss));
+            Some(format!("s {}", style_name(res.style)))
+        },
         Some("filtercompat") if f.len() == 3 => {
             let Some(text) = unhex_str(f[1]) else { return Some("bad-req".into()) };
             let styles = if f[2] == "all" { Style::all_styles() } else { names(f[2])? };
